@@ -46,3 +46,334 @@ def _size(it, ctx, a, k):
     if not a:
         return VTuple([], is_size=True)
     return VTuple(it.iterate(ctx, a[0]), is_size=True)
+
+
+# ============================================================================ tensors ========
+from . import dom_elem as E  # noqa: E402
+from .dom_elem import Dim, VTensor, as_tensor  # noqa: E402
+
+
+def _int_term(x):
+    if isinstance(x, VNum) and x.is_int:
+        return x.t
+    if isinstance(x, VTensor) and x.natoms() == 0 and x.sort == "int":
+        return x.elem([])
+    raise Undecided(f"integer argument of kind {x.kind}")
+
+
+@op("torch.arange")
+def _arange(it, ctx, a, k):
+    a = [x for x in a]
+    if len(a) == 1:
+        start, end, step = z3.IntVal(0), _int_term(a[0]), z3.IntVal(1)
+    elif len(a) == 2:
+        start, end, step = _int_term(a[0]), _int_term(a[1]), z3.IntVal(1)
+    else:
+        start, end, step = _int_term(a[0]), _int_term(a[1]), _int_term(a[2])
+    if not ctx.branch(step > 0):
+        raise Undecided("arange with non-positive step")
+    s1 = z3.simplify(step)
+    if z3.is_int_value(s1) and s1.as_long() == 1:
+        cnt = z3.If(end > start, end - start, 0)
+    else:
+        from .values import py_floordiv
+        cnt = z3.If(end > start, py_floordiv(end - start + step - 1, step), 0)
+    return VTensor([Dim([z3.simplify(cnt)])], lambda idx: start + idx[0] * step, "int")
+
+
+@op("torch.meshgrid")
+def _meshgrid(it, ctx, a, k):
+    if len(a) == 1 and isinstance(a[0], (VTuple, VList)):
+        a = list(a[0].items)
+    ix = k.get("indexing")
+    if ix is None or not isinstance(ix, VStr) or ix.s != "ij":
+        raise Undecided("meshgrid without indexing='ij'")
+    ts = [as_tensor(x) for x in a]
+    dims = [t.dims[0] for t in ts]
+    offs = []
+    p = 0
+    for d in dims:
+        offs.append((p, len(d.atoms)))
+        p += len(d.atoms)
+    outs = []
+    for j, t in enumerate(ts):
+        o, n = offs[j]
+        outs.append(VTensor(list(dims), (lambda idx, t=t, o=o, n=n: t.elem(idx[o:o + n])), t.sort))
+    return VTuple(outs)
+
+
+@op("torch.stack")
+def _stack(it, ctx, a, k):
+    dim = a[1] if len(a) > 1 else k.get("dim", VNum(0))
+    return E.stack(ctx, it.iterate(ctx, a[0]), dim.concrete())
+
+
+@op("torch.cat")
+def _cat(it, ctx, a, k):
+    dim = a[1] if len(a) > 1 else k.get("dim", VNum(0))
+    return E.cat(ctx, [as_tensor(x) for x in it.iterate(ctx, a[0])], dim.concrete())
+
+
+def _creation(term_of_sort):
+    def f(it, ctx, a, k):
+        sizes = E._shape_args(it, ctx, a)
+        return E.full([Dim([s]) for s in sizes], term_of_sort)
+
+    return f
+
+
+T["torch.zeros"] = _creation(z3.RealVal(0))
+T["torch.ones"] = _creation(z3.RealVal(1))
+T["torch.empty"] = _creation(z3.RealVal(0))
+
+
+@op("torch.zeros_like")
+def _zeros_like(it, ctx, a, k):
+    return E.full(list(a[0].dims), z3.RealVal(0) if a[0].sort == "real" else z3.IntVal(0))
+
+
+@op("torch.ones_like")
+def _ones_like(it, ctx, a, k):
+    return E.full(list(a[0].dims), z3.RealVal(1) if a[0].sort == "real" else z3.IntVal(1))
+
+
+@op("torch.eye")
+def _eye(it, ctx, a, k):
+    n = _int_term(a[0])
+    m = _int_term(a[1]) if len(a) > 1 else n
+    return VTensor([Dim([n]), Dim([m])], lambda idx: z3.If(idx[0] == idx[1], z3.RealVal(1), z3.RealVal(0)), "real")
+
+
+@op("torch.tensor", "torch.as_tensor")
+def _tensor(it, ctx, a, k):
+    x = a[0]
+    if isinstance(x, VTensor):
+        return x
+    if isinstance(x, (VNum, VBool)):
+        return as_tensor(x)
+    if isinstance(x, (VList, VTuple)):
+        return E.tensor_from_list(ctx, VList(list(x.items)))
+    raise Undecided("torch.tensor of " + x.kind)
+
+
+@op("torch.broadcast_shapes")
+def _broadcast_shapes(it, ctx, a, k):
+    shapes = []
+    for s in a:
+        shapes.append([x.t for x in it.iterate(ctx, s)])
+    dummies = [VTensor([Dim([e]) for e in sh], lambda idx: z3.IntVal(0), "int") for sh in shapes]
+    if not dummies:
+        return VTuple([], is_size=True)
+    dims, _ = E.broadcast_dims(ctx, dummies)
+    return VTuple([VNum(d.size) for d in dims], is_size=True)
+
+
+@op("torch.equal")
+def _equal(it, ctx, a, k):
+    x, y = a
+    if x is y:
+        return TRUE
+    h = it.optable.get("hook.torch.equal")
+    if h is not None:
+        return h(it, ctx, a, k)
+    raise Undecided("torch.equal of distinct symbolic tensors (contract must supply a hook)")
+
+
+@op("torch.where")
+def _where(it, ctx, a, k):
+    return E.where(ctx, a[0], a[1], a[2])
+
+
+@op("torch.matmul", "torch.mm", "torch.bmm")
+def _matmul(it, ctx, a, k):
+    return E.matmul(ctx, a[0], a[1])
+
+
+@op("torch.diag_embed")
+def _diag_embed(it, ctx, a, k):
+    return E.diag_embed(ctx, a[0])
+
+
+@op("torch.is_tensor")
+def _is_tensor2(it, ctx, a, k):
+    x = a[0]
+    if isinstance(x, VTensor):
+        return VBool(not x.is_linop)
+    return FALSE
+
+
+@op("torch.no_grad", "torch.enable_grad")
+def _no_grad(it, ctx, a, k):
+    class _NG(V):
+        kind = "ctxmgr"
+
+        def py_getattr(self, it, ctx, name):
+            if name in ("__enter__", "__exit__"):
+                return VBuiltin(name, lambda it, ctx, a, k: NONE)
+            raise Undecided("no_grad." + name)
+
+    return _NG()
+
+
+def _fn_from_method(name):
+    def f(it, ctx, a, k):
+        t = as_tensor(a[0])
+        if t is None:
+            raise Undecided(f"torch.{name} of {a[0].kind}")
+        return E.METHODS[name](t, it, ctx, list(a[1:]), k)
+
+    return f
+
+
+for _n in ("exp", "log", "sqrt", "sin", "cos", "tanh", "sigmoid", "abs", "neg", "square", "clamp", "clamp_min", "clamp_max",
+           "sum", "mean", "transpose", "unsqueeze", "squeeze", "reshape", "permute", "diagonal", "pow", "add", "sub", "mul",
+           "div", "log1p", "expm1", "erf", "rsqrt", "reciprocal", "any", "all", "numel", "isnan", "flatten", "lt", "gt", "le", "ge",
+           "eq", "ne", "masked_fill"):
+    T["torch." + _n] = _fn_from_method(_n)
+
+
+# ============================================================================ linear_operator ==
+def _linop(t, cls):
+    r = t.copy(is_linop=True, linop_class=cls)
+    return r
+
+
+@op("linear_operator.to_linear_operator", "linear_operator.operators.to_linear_operator")
+def _to_linop(it, ctx, a, k):
+    t = a[0]
+    if isinstance(t, VTensor):
+        return t if t.is_linop else _linop(t, "DenseLinearOperator")
+    raise Undecided("to_linear_operator of " + t.kind)
+
+
+@op("linear_operator.to_dense", "linear_operator.operators.to_dense")
+def _to_dense(it, ctx, a, k):
+    t = a[0]
+    if isinstance(t, VTensor):
+        return t.copy(is_linop=False, linop_class=None)
+    raise Undecided("to_dense of " + t.kind)
+
+
+@op("linear_operator.operators.DiagLinearOperator")
+def _DiagLO(it, ctx, a, k):
+    d = a[0] if a else k["diag"]
+    return _linop(E.diag_embed(ctx, d), "DiagLinearOperator")
+
+
+@op("linear_operator.operators.DenseLinearOperator")
+def _DenseLO(it, ctx, a, k):
+    return _linop(a[0], "DenseLinearOperator")
+
+
+@op("linear_operator.operators.BlockInterleavedLinearOperator")
+def _BlockInterleaved(it, ctx, a, k):
+    """base: ... x t x ... x n x n with block dim `block_dim` -> ... x (n t) x (n t), entry
+    [(i, a), (j, b)] = delta_ab * base[..., a, ..., i, j]   (row index i*t + a)"""
+    base = a[0]
+    bd = k.get("block_dim", a[1] if len(a) > 1 else VNum(-3))
+    return _block(ctx, base, bd, interleaved=True)
+
+
+@op("linear_operator.operators.BlockDiagLinearOperator")
+def _BlockDiag(it, ctx, a, k):
+    """entry [(a, i), (b, j)] = delta_ab * base[..., a, ..., i, j]   (row index a*n + i)"""
+    base = a[0]
+    bd = k.get("block_dim", a[1] if len(a) > 1 else VNum(-3))
+    return _block(ctx, base, bd, interleaved=False)
+
+
+def _block(ctx, base, bd, interleaved):
+    c = bd.concrete()
+    nb = len(base.dims) - 2
+    # linear_operator: a non-negative block_dim is relative to the batch shape; negative counts from the end incl. matrix dims
+    p = c if c >= 0 else c + len(base.dims)
+    if not (0 <= p < nb):
+        raise PyRaise(VExc("RuntimeError", "block_dim out of range"))
+    for q in range(len(base.dims)):
+        base = E.flatten_dim(base, q)
+    t = base.dims[p].size
+    n1, n2 = base.dims[-2].size, base.dims[-1].size
+    lead = [d for i, d in enumerate(base.dims[:-2]) if i != p]
+    nl = len(lead)
+    if interleaved:
+        rd, cd = Dim([n1, t]), Dim([n2, t])
+    else:
+        rd, cd = Dim([t, n1]), Dim([t, n2])
+
+    def elem(idx):
+        l = idx[:nl]
+        if interleaved:
+            i, ta, j, tb = idx[nl], idx[nl + 1], idx[nl + 2], idx[nl + 3]
+        else:
+            ta, i, tb, j = idx[nl], idx[nl + 1], idx[nl + 2], idx[nl + 3]
+        old = l[:p] + [ta] + l[p:] + [i, j]
+        v = base.elem(old)
+        return z3.If(ta == tb, v, z3.RealVal(0) if z3.is_real(v) else z3.IntVal(0))
+
+    return VTensor(lead + [rd, cd], elem, base.sort, True, linop_class="BlockInterleavedLinearOperator" if interleaved else "BlockDiagLinearOperator")
+
+
+@op("linear_operator.operators.CatLinearOperator")
+def _CatLO(it, ctx, a, k):
+    dim = k.get("dim", VNum(0)).concrete()
+    r = E.cat(ctx, list(a), dim)
+    r.is_linop = True
+    r.linop_class = "CatLinearOperator"
+    return r
+
+
+T["linear_operator.LinearOperator"] = VExtClass("linear_operator.LinearOperator")
+T["linear_operator.operators.LinearOperator"] = VExtClass("linear_operator.operators.LinearOperator")
+T["torch.Tensor"] = VExtClass("torch.Tensor")
+
+
+# ============================================================================ torch.distributions
+def _prop(f):
+    f.is_property = True
+    return f
+
+
+@op("torch.distributions.Distribution.__init__")
+def _dist_init(it, ctx, a, k):
+    self = a[0]
+    bs = a[1] if len(a) > 1 else k.get("batch_shape", VTuple([], True))
+    es = a[2] if len(a) > 2 else k.get("event_shape", VTuple([], True))
+    self.fields["_batch_shape"] = bs
+    self.fields["_event_shape"] = es
+    return NONE
+
+
+T["torch.distributions.Distribution.batch_shape"] = _prop(lambda it, ctx, a, k: a[0].fields["_batch_shape"])
+T["torch.distributions.Distribution.event_shape"] = _prop(lambda it, ctx, a, k: a[0].fields["_event_shape"])
+T["torch.distributions.MultivariateNormal.mean"] = _prop(lambda it, ctx, a, k: a[0].fields["loc"])
+
+
+@op("torch.distributions.MultivariateNormal.__init__")
+def _tmvn_init(it, ctx, a, k):
+    """dense (non-lazy) branch: loc, covariance_matrix | scale_tril"""
+    self = a[0]
+    loc = a[1] if len(a) > 1 else k["loc"]
+    cov = a[2] if len(a) > 2 else k.get("covariance_matrix", NONE)
+    st = k.get("scale_tril", NONE)
+    if cov is NONE and st is NONE:
+        raise Undecided("torch MVN constructed without covariance / scale_tril")
+    mat = cov if cov is not NONE else st
+    bs = _broadcast_shapes(it, ctx, [VTuple(loc.shape_tuple().items[:-1]), VTuple(mat.shape_tuple().items[:-2])], {})
+    self.fields["loc"] = E.expand(ctx, loc, [x.t for x in bs.items] + [loc.dims[-1].size])
+    if cov is not NONE:
+        self.fields["covariance_matrix"] = E.expand(ctx, cov, [x.t for x in bs.items] + [cov.dims[-2].size, cov.dims[-1].size])
+    self.fields["_batch_shape"] = bs
+    self.fields["_event_shape"] = VTuple(loc.shape_tuple().items[-1:], True)
+    self.fields["_validate_args"] = FALSE
+    return NONE
+
+
+T["torch.distributions.MultivariateNormal.covariance_matrix"] = _prop(lambda it, ctx, a, k: a[0].fields["covariance_matrix"])
+
+
+@op("torch.distributions.MultivariateNormal.variance")
+def _tmvn_variance(it, ctx, a, k):
+    return E.diagonal(ctx, a[0].fields["covariance_matrix"], -2, -1).copy(view_of=None)
+
+
+_tmvn_variance.is_property = True
